@@ -1,26 +1,878 @@
-//! C27: not implemented yet.
+//! C27: std collections (Vec, Bytes, String) and wide integers (U128, u256, std math,
+//! primitive conversions) agree with reference models.
+//!
+//! Runtime monitor: packages of generated `#[test]` functions (one operation HISTORY per test) are
+//! built and run through the real forc-test flow (`engine::run_unit_tests`) in debug and release
+//! against /repo/sway-lib-std (or SWVERIF_STD_PATH for calibration). Every test logs every
+//! observation; the harness compares the ordered log data and the revert status with what a Rust
+//! reference model (Vec<T>, Vec<u8>, num_bigint::BigUint) predicts. In-VM asserts are not used.
 use crate::common::*;
+use crate::engine::*;
 use crate::{Plan, Prop};
+use rand::{rngs::StdRng, Rng};
+use serde_json::{json, Value};
+use std::collections::{BTreeMap, HashSet};
+use std::panic::AssertUnwindSafe;
+use std::path::Path;
+use std::time::Instant;
+
+#[path = "c27_coll.rs"]
+mod coll;
+#[path = "c27_num.rs"]
+mod num;
 
 pub static META: PropertyMeta = PropertyMeta {
     id: "C27",
     level: "exploration",
-    rule: "not implemented",
-    assumptions: &[],
-    floor_evaluations: 1,
-    floor_nontrivial: 2,
-    required_counters: &[],
+    rule: "an evaluation = one generated #[test] history executed through forc-test in one build profile and compared (ordered log data + revert status) with the reference model; non-trivial = a collection history with >= 3 operations including a mutation and an observation, or a numeric test with >= 3 evaluated functions on boundary-biased operands; distinct = hash of the test body text",
+    assumptions: &[
+        "fuel-vm 0.66 and the forc-test runner are the trusted execution substrate; the compiler is part of the system under test (debug and release)",
+        "the oracle demands only what the std doc comments / code comments promise: capacity is only checked as >= len (and unchanged by clear), growth policy is not checked",
+        "default VM flags: overflow, division by zero and log/sqrt domain errors revert; wrapping_* never revert",
+        "tests that the model predicts to revert have the reverting operation as their LAST statement",
+    ],
+    floor_evaluations: 600,
+    floor_nontrivial: 200,
+    required_counters: &[
+        "packages_run",
+        "executions_debug",
+        "executions_release",
+        "family_vec_tests",
+        "family_bytes_tests",
+        "family_string_tests",
+        "family_u128_tests",
+        "family_u256_tests",
+        "family_math_tests",
+        "family_conv_tests",
+        "expected_reverts_seen_vec",
+        "expected_reverts_seen_bytes",
+        "expected_reverts_seen_numeric",
+        "growth_events_observed",
+    ],
 };
 
-pub static PROP: Prop = Prop {
-    meta: &META,
-    plan: |_t| Plan { nshards: 1, budget_s: 1.0, mem_gib: 0 },
-    shard: |_ctx| {
-        let mut r = ShardResult::default();
-        r.harness_fault = Some("not implemented".into());
-        r
-    },
-    replay: crate::no_replay,
-    extra: crate::no_extra,
-    subcommand: crate::no_subcommand,
-};
+pub static PROP: Prop = Prop { meta: &META, plan, shard, replay, extra: crate::no_extra, subcommand };
+
+fn plan(t: Tier) -> Plan {
+    // A package build (std is compiled every time) takes 3-5 s on an idle machine and much more on
+    // a loaded one: give the per-case watchdog room (children inherit the environment).
+    if std::env::var("SWVERIF_CASE_WATCHDOG_S").is_err() {
+        std::env::set_var("SWVERIF_CASE_WATCHDOG_S", "300");
+    }
+    Plan { nshards: 16, budget_s: t.pick(45.0, 900.0), mem_gib: 6 }
+}
+
+// ------------------------------------------------------------------------------------------
+// expectations
+
+#[derive(Clone, Debug, PartialEq)]
+pub enum Check {
+    Exact(Vec<u8>),
+    /// a u64 whose exact value is not promised by the docs (capacity): must be >= the bound
+    U64AtLeast(u64),
+}
+
+impl std::fmt::Display for Check {
+    fn fmt(&self, f: &mut std::fmt::Formatter<'_>) -> std::fmt::Result {
+        match self {
+            Check::Exact(b) => write!(f, "{}", hex::encode(b)),
+            Check::U64AtLeast(m) => write!(f, "a u64 >= {m}"),
+        }
+    }
+}
+
+#[derive(Clone, Debug)]
+pub struct Obs {
+    pub op: String,
+    pub class: String,
+    pub check: Check,
+}
+
+#[derive(Clone, Debug)]
+pub struct TestCase {
+    pub name: String,
+    pub family: &'static str,
+    pub body: String,
+    pub expected: Vec<Obs>,
+    /// (op, class) of the last statement when the model says it reverts
+    pub revert_op: Option<(String, String)>,
+    pub ops: Vec<String>,
+    /// (counter key, class) pairs for the numeric boundary classes exercised
+    pub classes: Vec<(String, String)>,
+    pub nontrivial: bool,
+    pub stats: BTreeMap<String, u64>,
+}
+
+impl TestCase {
+    pub fn source(&self) -> String {
+        format!("#[test]\nfn {}() {{\n{}}}\n", self.name, self.body)
+    }
+}
+
+pub fn e_u64(v: u64) -> Vec<u8> {
+    v.to_be_bytes().to_vec()
+}
+pub fn e_u8(v: u8) -> Vec<u8> {
+    vec![v]
+}
+pub fn e_bool(v: bool) -> Vec<u8> {
+    vec![v as u8]
+}
+pub fn e_opt(v: Option<Vec<u8>>) -> Vec<u8> {
+    match v {
+        None => e_u64(0),
+        Some(p) => {
+            let mut o = e_u64(1);
+            o.extend(p);
+            o
+        }
+    }
+}
+
+/// Builder of one test body + its expected observations.
+pub struct TB {
+    pub family: &'static str,
+    lines: Vec<String>,
+    pub expected: Vec<Obs>,
+    pub revert_op: Option<(String, String)>,
+    pub ops: Vec<String>,
+    pub classes: Vec<(String, String)>,
+    pub muts: u32,
+    pub obs: u32,
+    cur_op: String,
+    cur_class: String,
+    tmp: u32,
+    pub stats: BTreeMap<String, u64>,
+}
+
+impl TB {
+    pub fn new(family: &'static str) -> TB {
+        TB { family, lines: vec![], expected: vec![], revert_op: None, ops: vec![], classes: vec![], muts: 0, obs: 0, cur_op: String::new(), cur_class: String::new(), tmp: 0, stats: BTreeMap::new() }
+    }
+    pub fn op(&mut self, op: &str, class: &str) {
+        self.cur_op = op.to_string();
+        self.cur_class = class.to_string();
+        self.ops.push(op.to_string());
+    }
+    pub fn line(&mut self, s: impl Into<String>) {
+        self.lines.push(s.into());
+    }
+    pub fn mutation(&mut self, s: impl Into<String>) {
+        self.muts += 1;
+        self.lines.push(s.into());
+    }
+    pub fn expect(&mut self, bytes: Vec<u8>) {
+        self.expected.push(Obs { op: self.cur_op.clone(), class: self.cur_class.clone(), check: Check::Exact(bytes) });
+        self.obs += 1;
+    }
+    pub fn log(&mut self, expr: &str, bytes: Vec<u8>) {
+        self.lines.push(format!("log({expr});"));
+        self.expect(bytes);
+    }
+    pub fn log_at_least(&mut self, expr: &str, min: u64) {
+        self.lines.push(format!("log({expr});"));
+        self.expected.push(Obs { op: self.cur_op.clone(), class: self.cur_class.clone(), check: Check::U64AtLeast(min) });
+        self.obs += 1;
+    }
+    /// a statement that the model says reverts: must be the last one of the test
+    pub fn reverting(&mut self, stmt: impl Into<String>) {
+        self.lines.push(stmt.into());
+        self.revert_op = Some((self.cur_op.clone(), self.cur_class.clone()));
+    }
+    pub fn tmp(&mut self, prefix: &str) -> String {
+        self.tmp += 1;
+        format!("{prefix}{}", self.tmp)
+    }
+    pub fn stat_max(&mut self, key: &str, v: u64) {
+        let e = self.stats.entry(key.to_string()).or_insert(0);
+        if v > *e {
+            *e = v;
+        }
+    }
+    pub fn finish(self, name: &str, nontrivial: bool) -> TestCase {
+        let mut body = String::new();
+        for l in &self.lines {
+            body.push_str("    ");
+            body.push_str(l);
+            body.push('\n');
+        }
+        TestCase { name: name.to_string(), family: self.family, body, expected: self.expected, revert_op: self.revert_op, ops: self.ops, classes: self.classes, nontrivial, stats: self.stats }
+    }
+}
+
+// ------------------------------------------------------------------------------------------
+// packages
+
+pub const PRELUDE: &str = r#"library;
+use std::bytes::*;
+use std::string::*;
+use std::u128::*;
+use std::convert::*;
+use std::bytes_conversions::b256::*;
+use std::bytes_conversions::u16::*;
+use std::bytes_conversions::u32::*;
+use std::bytes_conversions::u64::*;
+use std::bytes_conversions::u256::*;
+
+#[inline(never)]
+fn o8(x: u8) -> u8 { x }
+#[inline(never)]
+fn o16(x: u16) -> u16 { x }
+#[inline(never)]
+fn o32(x: u32) -> u32 { x }
+#[inline(never)]
+fn o64(x: u64) -> u64 { x }
+#[inline(never)]
+fn o256(x: u256) -> u256 { x }
+#[inline(never)]
+fn ob256(x: b256) -> b256 { x }
+
+struct S { a: u64, b: u8, c: bool }
+impl PartialEq for S {
+    fn eq(self, other: Self) -> bool { self.a == other.a && self.b == other.b && self.c == other.c }
+}
+impl Eq for S {}
+
+fn dump_u64(v: Vec<u64>) {
+    log(v.len());
+    let mut i: u64 = 0u64;
+    while i < v.len() {
+        log(v.get(i).unwrap());
+        i += 1u64;
+    }
+}
+fn dump_u8(v: Vec<u8>) {
+    log(v.len());
+    let mut i: u64 = 0u64;
+    while i < v.len() {
+        log(v.get(i).unwrap());
+        i += 1u64;
+    }
+}
+fn dump_s(v: Vec<S>) {
+    log(v.len());
+    let mut i: u64 = 0u64;
+    while i < v.len() {
+        log(v.get(i).unwrap());
+        i += 1u64;
+    }
+}
+fn dump_b256(v: Vec<b256>) {
+    log(v.len());
+    let mut i: u64 = 0u64;
+    while i < v.len() {
+        log(v.get(i).unwrap());
+        i += 1u64;
+    }
+}
+fn dump_bytes(v: Bytes) {
+    log(v.len());
+    let mut i: u64 = 0u64;
+    while i < v.len() {
+        log(v.get(i).unwrap());
+        i += 1u64;
+    }
+}
+
+"#;
+
+#[derive(Clone, Copy, Debug, PartialEq, Eq)]
+pub enum PkgKind {
+    Vec,
+    BytesString,
+    U128,
+    Wide,
+}
+
+impl PkgKind {
+    fn of(n: u64) -> PkgKind {
+        match n % 4 {
+            0 => PkgKind::Vec,
+            1 => PkgKind::BytesString,
+            2 => PkgKind::U128,
+            _ => PkgKind::Wide,
+        }
+    }
+    fn name(self) -> &'static str {
+        match self {
+            PkgKind::Vec => "vec",
+            PkgKind::BytesString => "bytes_string",
+            PkgKind::U128 => "u128",
+            PkgKind::Wide => "wide",
+        }
+    }
+}
+
+pub struct Package {
+    pub kind: PkgKind,
+    pub source: String,
+    pub tests: Vec<TestCase>,
+}
+
+/// Sizes of the generated histories for a tier.
+#[derive(Clone, Copy)]
+pub struct Sizes {
+    pub coll_tests: usize,
+    pub num_tests: usize,
+    pub max_ops: usize,
+    pub max_len: usize,
+    pub max_items: usize,
+}
+
+fn sizes(tier: Tier) -> Sizes {
+    match tier {
+        Tier::Quick => Sizes { coll_tests: 40, num_tests: 64, max_ops: 16, max_len: 24, max_items: 6 },
+        Tier::Thorough => Sizes { coll_tests: 56, num_tests: 80, max_ops: 36, max_len: 72, max_items: 8 },
+    }
+}
+
+/// The package of (seed, shard, index): a pure function of its arguments.
+pub fn gen_package(seed: u64, shard: u64, index: u64, tier: Tier) -> Package {
+    let kind = PkgKind::of(shard + index);
+    let sz = sizes(tier);
+    let mut rng = rng_for(seed ^ 0x0c27, shard, index);
+    let mut tests = vec![];
+    match kind {
+        PkgKind::Vec => {
+            for k in 0..sz.coll_tests {
+                let want_revert = rng.gen_range(0..100) < 24;
+                let t = match k % 4 {
+                    0 => coll::gen_seq_test::<u64>(&mut rng, false, &format!("t{k:03}_vec_u64"), want_revert, &sz),
+                    1 => coll::gen_seq_test::<u8>(&mut rng, false, &format!("t{k:03}_vec_u8"), want_revert, &sz),
+                    2 => coll::gen_seq_test::<coll::S>(&mut rng, false, &format!("t{k:03}_vec_s"), want_revert, &sz),
+                    _ => coll::gen_seq_test::<coll::B32>(&mut rng, false, &format!("t{k:03}_vec_b256"), want_revert, &sz),
+                };
+                tests.push(t);
+            }
+        }
+        PkgKind::BytesString => {
+            for k in 0..sz.coll_tests {
+                let want_revert = rng.gen_range(0..100) < 24;
+                let t = if k % 3 == 2 {
+                    coll::gen_string_test(&mut rng, &format!("t{k:03}_string"), &sz)
+                } else {
+                    coll::gen_seq_test::<u8>(&mut rng, true, &format!("t{k:03}_bytes"), want_revert, &sz)
+                };
+                tests.push(t);
+            }
+        }
+        PkgKind::U128 => {
+            for k in 0..sz.num_tests {
+                let want_revert = rng.gen_range(0..100) < 30;
+                tests.push(num::gen_num_test(&mut rng, "u128", &format!("t{k:03}_u128"), want_revert, &sz));
+            }
+        }
+        PkgKind::Wide => {
+            for k in 0..sz.num_tests {
+                let want_revert = rng.gen_range(0..100) < 30;
+                let fam = match k % 3 {
+                    0 => "u256",
+                    1 => "math",
+                    _ => "conv",
+                };
+                tests.push(num::gen_num_test(&mut rng, fam, &format!("t{k:03}_{fam}"), want_revert, &sz));
+            }
+        }
+    }
+    let mut source = String::from(PRELUDE);
+    for t in &tests {
+        source.push_str(&t.source());
+        source.push('\n');
+    }
+    Package { kind, source, tests }
+}
+
+// ------------------------------------------------------------------------------------------
+// comparison
+
+pub enum Cmp {
+    /// agrees; the capacities observed (in order) for the growth evidence
+    Ok(Vec<u64>),
+    Inconclusive(String),
+    Bad { signature: String, description: String },
+}
+
+fn sig(op: &str, kind: &str, class: &str) -> String {
+    if class.is_empty() {
+        format!("{op}:{kind}")
+    } else {
+        format!("{op}:{kind}:{class}")
+    }
+}
+
+fn show_outcome(o: &Outcome) -> String {
+    match o {
+        Outcome::Return(v) => format!("Return({v})"),
+        Outcome::ReturnData(d) => format!("ReturnData({})", hex::encode(d)),
+        Outcome::Revert(c) => format!("Revert({c:#x})"),
+        Outcome::Panic(r) => format!("Panic({r})"),
+        Outcome::VmError(e) => format!("VmError({e})"),
+    }
+}
+
+/// Compare one executed test with the model's prediction.
+pub fn compare(expected: &[Obs], revert_op: &Option<(String, String)>, outcome: &Outcome, logs: &[Vec<u8>]) -> Cmp {
+    match outcome {
+        Outcome::VmError(e) => return Cmp::Inconclusive(format!("the VM refused the test: {e}")),
+        Outcome::Panic(r) if r.contains("OutOfGas") => return Cmp::Inconclusive("test ran out of gas".into()),
+        _ => {}
+    }
+    let reverted = outcome.reverted();
+    let mut caps = vec![];
+    let n = logs.len().min(expected.len());
+    for i in 0..n {
+        let e = &expected[i];
+        match &e.check {
+            Check::Exact(b) => {
+                if &logs[i] != b {
+                    return Cmp::Bad {
+                        signature: sig(&e.op, "value-mismatch", &e.class),
+                        description: format!("observation #{i} of op {}: model {} / program {} (outcome {})", e.op, hex::encode(b), hex::encode(&logs[i]), show_outcome(outcome)),
+                    };
+                }
+            }
+            Check::U64AtLeast(m) => {
+                let v = if logs[i].len() == 8 { Some(u64::from_be_bytes(logs[i][..].try_into().unwrap())) } else { None };
+                match v {
+                    Some(v) if v >= *m => caps.push(v),
+                    _ => {
+                        return Cmp::Bad {
+                            signature: sig(&e.op, "bound-violated", &e.class),
+                            description: format!("observation #{i} of op {}: documented lower bound {m} / program {}", e.op, hex::encode(&logs[i])),
+                        }
+                    }
+                }
+            }
+        }
+    }
+    if logs.len() > expected.len() {
+        return match revert_op {
+            Some((op, class)) => Cmp::Bad {
+                signature: sig(op, "missing-revert", class),
+                description: format!("op {op} is documented to revert here but produced {} (outcome {})", hex::encode(&logs[expected.len()]), show_outcome(outcome)),
+            },
+            None => Cmp::Bad {
+                signature: sig(expected.last().map(|e| e.op.as_str()).unwrap_or("start"), "extra-log", ""),
+                description: format!("{} observations beyond the {} the model predicts; first extra {}", logs.len() - expected.len(), expected.len(), hex::encode(&logs[expected.len()])),
+            },
+        };
+    }
+    if logs.len() < expected.len() {
+        let e = &expected[logs.len()];
+        return if reverted {
+            Cmp::Bad {
+                signature: sig(&e.op, "unexpected-revert", &e.class),
+                description: format!("op {} reverted ({}) before observation #{}; the model expects {} and no revert", e.op, show_outcome(outcome), logs.len(), e.check),
+            }
+        } else {
+            Cmp::Bad { signature: sig(&e.op, "missing-log", &e.class), description: format!("observation #{} of op {} is missing although the test returned ({})", logs.len(), e.op, show_outcome(outcome)) }
+        };
+    }
+    match (revert_op, reverted) {
+        (Some(_), true) | (None, false) => Cmp::Ok(caps),
+        (Some((op, class)), false) => Cmp::Bad { signature: sig(op, "missing-revert", class), description: format!("op {op} is documented to revert here but the test returned ({})", show_outcome(outcome)) },
+        (None, true) => Cmp::Bad { signature: sig("end", "unexpected-revert", ""), description: format!("the test reverted ({}) after its last observation", show_outcome(outcome)) },
+    }
+}
+
+fn obs_json(expected: &[Obs]) -> Value {
+    Value::Array(
+        expected
+            .iter()
+            .map(|o| match &o.check {
+                Check::Exact(b) => json!({"op": o.op, "class": o.class, "exact": hex::encode(b)}),
+                Check::U64AtLeast(m) => json!({"op": o.op, "class": o.class, "at_least": m}),
+            })
+            .collect(),
+    )
+}
+
+fn obs_from_json(v: &Value) -> Option<Vec<Obs>> {
+    let mut out = vec![];
+    for o in v.as_array()? {
+        let op = o.get("op")?.as_str()?.to_string();
+        let class = o.get("class")?.as_str()?.to_string();
+        let check = if let Some(h) = o.get("exact").and_then(|x| x.as_str()) {
+            Check::Exact(hex::decode(h).ok()?)
+        } else {
+            Check::U64AtLeast(o.get("at_least")?.as_u64()?)
+        };
+        out.push(Obs { op, class, check });
+    }
+    Some(out)
+}
+
+fn replay_json(pkg_source: &str, t: &TestCase, origin: &Value) -> Value {
+    json!({
+        "source": pkg_source,
+        "test": t.name,
+        "family": t.family,
+        "expected": obs_json(&t.expected),
+        "revert_op": t.revert_op.as_ref().map(|(o, c)| json!([o, c])),
+        "origin": origin,
+    })
+}
+
+/// Count what a test exercised (once per history).
+fn count_history(t: &TestCase, res: &mut ShardResult) {
+    res.count("histories");
+    res.count(&format!("family_{}_tests", t.family));
+    for op in &t.ops {
+        res.count(&format!("xop:{op}"));
+    }
+    res.add("operations_total", t.ops.len() as u64);
+    for (k, c) in &t.classes {
+        res.count(&format!("xcls:{k}:{c}"));
+    }
+    for (k, v) in &t.stats {
+        if k.starts_with("max_") {
+            res.max(k, *v);
+        } else {
+            res.add(k, *v);
+        }
+    }
+    res.max("max_ops_in_history", t.ops.len() as u64);
+    if t.revert_op.is_some() {
+        res.count("histories_expected_to_revert");
+    }
+    if t.nontrivial {
+        res.note_nontrivial(hash64(t.body.as_bytes()));
+    }
+}
+
+fn revert_family(f: &str) -> &'static str {
+    match f {
+        "vec" => "vec",
+        "bytes" => "bytes",
+        "string" => "string",
+        _ => "numeric",
+    }
+}
+
+/// Build and run one package in both profiles and compare every test.
+pub fn run_package(pkg: &Package, dir: &Path, res: &mut ShardResult, seen: &mut HashSet<String>, origin: &Value) {
+    let _ = std::fs::remove_dir_all(dir);
+    if let Err(e) = write_pkg(dir, "c27pkg", &pkg.source, true) {
+        res.inconclusive(format!("cannot write package: {e}"));
+        return;
+    }
+    let mut counted = false;
+    for profile in Profile::BOTH {
+        let t0 = Instant::now();
+        let run = match catch(AssertUnwindSafe(|| run_unit_tests(dir, profile, 1, None))) {
+            Ok(Ok(r)) => r,
+            Ok(Err(e)) => {
+                res.count("packages_build_failed");
+                let d = diag(dir);
+                let file = dir.with_extension(format!("{}.failed.sw", profile.name()));
+                let _ = std::fs::write(&file, &pkg.source);
+                res.inconclusive(format!("package ({}, {}) did not build: {e:#}: {} [source kept in {}]", pkg.kind.name(), profile.name(), d.chars().take(400).collect::<String>(), file.display()));
+                continue;
+            }
+            Err((loc, msg)) => {
+                res.count("packages_compiler_panicked");
+                res.inconclusive(format!("compiler panicked on package ({}, {}): {loc}: {}", pkg.kind.name(), profile.name(), msg.chars().take(200).collect::<String>()));
+                continue;
+            }
+        };
+        res.count("packages_run");
+        res.count(&format!("packages_run_{}", pkg.kind.name()));
+        res.max("max_package_build_and_run_ms", t0.elapsed().as_millis() as u64);
+        if !counted {
+            counted = true;
+            for t in &pkg.tests {
+                count_history(t, res);
+            }
+            if res.samples.len() < 2 {
+                if let Some(t) = pkg.tests.iter().find(|t| t.nontrivial) {
+                    res.sample(json!({"family": t.family, "test": t.source(), "expected_observations": t.expected.len(), "expected_to_revert": t.revert_op.is_some()}));
+                }
+            }
+        }
+        for t in &pkg.tests {
+            let Some(o) = run.tests.iter().find(|o| o.name == t.name) else {
+                res.inconclusive(format!("test {} was not run by forc-test", t.name));
+                continue;
+            };
+            res.evaluations += 1;
+            res.count(&format!("executions_{}", profile.name()));
+            let logs: Vec<Vec<u8>> = o.logs.iter().map(|l| l.2.clone()).collect();
+            res.add("observations_compared", logs.len().min(t.expected.len()) as u64);
+            match compare(&t.expected, &t.revert_op, &o.outcome, &logs) {
+                Cmp::Ok(caps) => {
+                    if t.revert_op.is_some() {
+                        res.count(&format!("expected_reverts_seen_{}", revert_family(t.family)));
+                    }
+                    let mut prev: Option<u64> = None;
+                    for c in caps {
+                        res.max("max_capacity_observed", c);
+                        if let Some(p) = prev {
+                            if c > p {
+                                res.count("growth_events_observed");
+                            }
+                        }
+                        prev = Some(c);
+                    }
+                }
+                Cmp::Inconclusive(n) => res.inconclusive(format!("{} [{}]: {n}", t.name, profile.name())),
+                Cmp::Bad { signature, description } => {
+                    res.count("disagreements");
+                    if seen.insert(signature.clone()) {
+                        res.violation(signature, format!("[{} {} {}] {description}", t.family, t.name, profile.name()), replay_json(&pkg.source, t, origin));
+                    } else {
+                        res.count("violations_same_signature_suppressed");
+                    }
+                }
+            }
+        }
+    }
+}
+
+/// Type-check the package (tests included) with forc_pkg::check and return the error texts.
+pub fn diag(dir: &Path) -> String {
+    use forc_pkg::{BuildPlan, PkgOpts};
+    use sway_types::Spanned;
+    let r = (|| -> anyhow::Result<String> {
+        let plan = BuildPlan::from_pkg_opts(&PkgOpts { path: Some(dir.to_string_lossy().to_string()), offline: true, terse: true, ..Default::default() })?;
+        let engines = sway_core::Engines::default();
+        let v = forc_pkg::check(&plan, sway_core::BuildTarget::Fuel, true, None, true, &engines, None, &[], &[], sway_core::DbgGeneration::None)?;
+        let mut out = vec![];
+        for (_, h) in v {
+            let (errs, _, _) = h.consume();
+            for e in errs.iter().take(6) {
+                let sp = e.span();
+                let lc = sp.start_line_col_one_index();
+                out.push(format!("{e} @{}:{} `{}`", lc.line, lc.col, sp.as_str().chars().take(80).collect::<String>()));
+            }
+        }
+        Ok(out.join("\n"))
+    })();
+    match r {
+        Ok(s) if s.is_empty() => "no type-check diagnostics (the failure is in IR generation / codegen)".into(),
+        Ok(s) => s,
+        Err(e) => format!("check failed: {e:#}"),
+    }
+}
+
+// ------------------------------------------------------------------------------------------
+// shard / replay
+
+fn shard(ctx: &ShardCtx) -> ShardResult {
+    let mut res = ShardResult::default();
+    let work = ctx.work();
+    let mut seen = HashSet::new();
+    let mut i = ctx.first_index;
+    let mut last_cost = 0.0f64;
+    loop {
+        // every shard runs its first package whatever the load of the machine; afterwards a
+        // package is started only if it is likely to end within ~15 % of the budget
+        if i > 0 {
+            let elapsed = ctx.start.elapsed().as_secs_f64();
+            if !ctx.time_left() || elapsed + last_cost > ctx.budget.as_secs_f64() * 1.15 {
+                break;
+            }
+        }
+        let pkg = gen_package(ctx.seed, ctx.shard, i, ctx.tier);
+        let origin = json!({"seed": ctx.seed, "shard": ctx.shard, "index": i, "tier": ctx.tier.name(), "kind": pkg.kind.name()});
+        journal_current(ctx, &format!("package kind {} index {i}", pkg.kind.name()));
+        ctx.begin_case(i, &pkg.source, &res);
+        let t0 = Instant::now();
+        let dir = work.join(format!("p{i}"));
+        run_package(&pkg, &dir, &mut res, &mut seen, &origin);
+        ctx.end_case();
+        last_cost = t0.elapsed().as_secs_f64();
+        let _ = std::fs::remove_dir_all(&dir);
+        i += 1;
+    }
+    res
+}
+
+fn replay(case: &Value) -> ShardResult {
+    let mut res = ShardResult::default();
+    let (Some(source), Some(test), Some(expected)) = (case.get("source").and_then(|v| v.as_str()), case.get("test").and_then(|v| v.as_str()), case.get("expected").and_then(obs_from_json)) else {
+        res.harness_fault = Some("replay file lacks source / test / expected".into());
+        return res;
+    };
+    let family = case.get("family").and_then(|v| v.as_str()).unwrap_or("?").to_string();
+    let revert_op = case.get("revert_op").and_then(|v| v.as_array()).map(|a| (a[0].as_str().unwrap_or("").to_string(), a[1].as_str().unwrap_or("").to_string()));
+    let dir = work_dir("C27").join("replay");
+    clean_dir(&dir);
+    if let Err(e) = write_pkg(&dir, "c27pkg", source, true) {
+        res.harness_fault = Some(format!("cannot write package: {e}"));
+        return res;
+    }
+    let mut seen = HashSet::new();
+    for profile in Profile::BOTH {
+        let run = match catch(AssertUnwindSafe(|| run_unit_tests(&dir, profile, 1, Some((test, true))))) {
+            Ok(Ok(r)) => r,
+            Ok(Err(e)) => {
+                res.inconclusive(format!("package did not build in {}: {e:#}: {}", profile.name(), diag(&dir)));
+                continue;
+            }
+            Err((loc, msg)) => {
+                res.inconclusive(format!("compiler panicked: {loc}: {msg}"));
+                continue;
+            }
+        };
+        let Some(o) = run.tests.iter().find(|o| o.name == test) else {
+            res.inconclusive(format!("test {test} was not run"));
+            continue;
+        };
+        res.evaluations += 1;
+        let logs: Vec<Vec<u8>> = o.logs.iter().map(|l| l.2.clone()).collect();
+        match compare(&expected, &revert_op, &o.outcome, &logs) {
+            Cmp::Ok(_) => println!("  {test} [{}]: agrees with the model ({} observations, outcome {})", profile.name(), logs.len(), show_outcome(&o.outcome)),
+            Cmp::Inconclusive(n) => res.inconclusive(n),
+            Cmp::Bad { signature, description } => {
+                println!("  {test} [{}]: {signature}: {description}", profile.name());
+                if seen.insert(signature.clone()) {
+                    res.violation(signature, format!("[{family} {test} {}] {description}", profile.name()), case.clone());
+                }
+            }
+        }
+    }
+    if res.evaluations == 0 {
+        res.harness_fault = Some(format!("replay could not execute the test: {}", res.inconclusive_notes.join("; ")));
+    }
+    res
+}
+
+// ------------------------------------------------------------------------------------------
+// helper subcommands (development / calibration)
+//   swverif c27probe <file.sw>            run a hand-written test package, print outcomes + logs
+//   swverif c27gen <shard> <index> [tier] print the generated package
+//   swverif c27one <shard> <index> [tier] generate + run one package, print disagreements
+//   swverif c27selftest                   feed the oracle synthetic bad observations
+
+fn subcommand(args: &[String]) -> Option<i32> {
+    let cmd = args.first().map(|s| s.as_str())?;
+    let tier_of = |a: Option<&String>| a.and_then(|s| Tier::parse(s)).unwrap_or(Tier::Quick);
+    match cmd {
+        "c27probe" => {
+            let src = std::fs::read_to_string(&args[1]).expect("read source");
+            let work = work_dir("c27probe");
+            clean_dir(&work);
+            let dir = work.join("pkg");
+            write_pkg(&dir, "c27probe", &src, true).unwrap();
+            for profile in Profile::BOTH {
+                let t = Instant::now();
+                match run_unit_tests(&dir, profile, 1, None) {
+                    Err(e) => println!("{}: build/run failed: {e:#}\n{}", profile.name(), diag(&dir)),
+                    Ok(run) => {
+                        println!("{}: {} tests in {:.1}s", profile.name(), run.tests.len(), t.elapsed().as_secs_f64());
+                        for t in &run.tests {
+                            println!("  {} passed={} outcome={} gas={}", t.name, t.passed, show_outcome(&t.outcome), t.gas_used);
+                            for (_, _, d) in &t.logs {
+                                println!("      log {}", hex::encode(d));
+                            }
+                        }
+                    }
+                }
+            }
+            Some(0)
+        }
+        "c27gen" => {
+            let pkg = gen_package(env_seed(), args[1].parse().unwrap(), args[2].parse().unwrap(), tier_of(args.get(3)));
+            println!("{}", pkg.source);
+            Some(0)
+        }
+        "c27one" => {
+            let shard: u64 = args[1].parse().unwrap();
+            let index: u64 = args[2].parse().unwrap();
+            let pkg = gen_package(env_seed(), shard, index, tier_of(args.get(3)));
+            let mut res = ShardResult::default();
+            let dir = work_dir("c27one").join(format!("s{shard}_p{index}"));
+            let t = Instant::now();
+            run_package(&pkg, &dir, &mut res, &mut HashSet::new(), &json!({}));
+            println!("kind={} tests={} evaluations={} inconclusive={} violations={} suppressed={} wall={:.1}s", pkg.kind.name(), pkg.tests.len(), res.evaluations, res.inconclusive, res.violations.len(), res.counters.get("violations_same_signature_suppressed").copied().unwrap_or(0), t.elapsed().as_secs_f64());
+            for n in &res.inconclusive_notes {
+                println!("  inconclusive: {n}");
+            }
+            for v in &res.violations {
+                println!("  VIOLATION {} :: {}", v.signature, v.description);
+            }
+            Some(if res.violations.is_empty() { 0 } else { 1 })
+        }
+        "c27enum" => Some(enum_cmd()),
+        "c27selftest" => Some(selftest()),
+        _ => None,
+    }
+}
+
+/// Run every input of the enumerated defect regions (one test each) and print the
+/// known-findings entries of those that disagree with the model on the std in use.
+fn enum_cmd() -> i32 {
+    let tests = num::enum_tests();
+    let mut source = String::from(PRELUDE);
+    for t in &tests {
+        source.push_str(&t.source());
+        source.push('\n');
+    }
+    let pkg = Package { kind: PkgKind::U128, source, tests };
+    let mut res = ShardResult::default();
+    let dir = work_dir("c27one").join("enum");
+    let mut seen = HashSet::new();
+    run_package(&pkg, &dir, &mut res, &mut seen, &json!({"enumerated": true}));
+    for n in &res.inconclusive_notes {
+        eprintln!("inconclusive: {n}");
+    }
+    let mut sigs: Vec<(String, String)> = res.violations.iter().map(|v| (v.signature.clone(), v.description.clone())).collect();
+    sigs.sort();
+    let entries: Vec<Value> = sigs
+        .iter()
+        .map(|(s, d)| {
+            let what = d.split("] ").nth(1).unwrap_or(d);
+            json!({"property": "C27", "signature": s, "description": format!("std defect on the unchanged tree: {what}"), "status": "open"})
+        })
+        .collect();
+    println!("{}", serde_json::to_string_pretty(&Value::Array(entries)).unwrap());
+    eprintln!("{} enumerated tests, {} evaluations, {} disagreeing signatures", pkg.tests.len(), res.evaluations, sigs.len());
+    0
+}
+
+/// Unit test of the oracle with synthetic observations.
+fn selftest() -> i32 {
+    let ex = |b: Vec<u8>, op: &str| Obs { op: op.into(), class: "k".into(), check: Check::Exact(b) };
+    let expected = vec![ex(e_u64(1), "a.push"), Obs { op: "a.capacity".into(), class: String::new(), check: Check::U64AtLeast(3) }, ex(e_u8(7), "a.get")];
+    let good = vec![e_u64(1), e_u64(4), e_u8(7)];
+    let ret = Outcome::Return(0);
+    let rev = Outcome::Revert(0);
+    let mut fails = 0;
+    let mut check = |name: &str, c: Cmp, want: &str| {
+        let got = match &c {
+            Cmp::Ok(_) => "ok".to_string(),
+            Cmp::Inconclusive(_) => "inconclusive".to_string(),
+            Cmp::Bad { signature, .. } => signature.clone(),
+        };
+        if got != want {
+            println!("selftest {name}: got {got}, want {want}");
+            fails += 1;
+        }
+    };
+    check("agree", compare(&expected, &None, &ret, &good), "ok");
+    check("wrong value", compare(&expected, &None, &ret, &[e_u64(1), e_u64(4), e_u8(8)]), "a.get:value-mismatch:k");
+    check("capacity below len", compare(&expected, &None, &ret, &[e_u64(1), e_u64(2), e_u8(7)]), "a.capacity:bound-violated");
+    check("unexpected revert", compare(&expected, &None, &rev, &good[..2]), "a.get:unexpected-revert:k");
+    check("revert at end", compare(&expected, &None, &rev, &good), "end:unexpected-revert");
+    check("missing log", compare(&expected, &None, &ret, &good[..1]), "a.capacity:missing-log");
+    check("extra log", compare(&expected, &None, &ret, &[good.clone(), vec![e_u8(1)]].concat()), "a.get:extra-log");
+    let rop = Some(("a.remove".to_string(), "k".to_string()));
+    check("expected revert", compare(&expected, &rop, &rev, &good), "ok");
+    check("missing revert", compare(&expected, &rop, &ret, &good), "a.remove:missing-revert:k");
+    check("missing revert, value logged", compare(&expected, &rop, &ret, &[good.clone(), vec![e_u8(1)]].concat()), "a.remove:missing-revert:k");
+    check("early revert", compare(&expected, &rop, &rev, &good[..1]), "a.capacity:unexpected-revert");
+    check("vm error", compare(&expected, &None, &Outcome::VmError("x".into()), &[]), "inconclusive");
+    check("out of gas", compare(&expected, &None, &Outcome::Panic("OutOfGas".into()), &good[..1]), "inconclusive");
+    // models
+    fails += num::selftest();
+    fails += coll::selftest();
+    println!("c27selftest: {} failure(s)", fails);
+    if fails == 0 {
+        0
+    } else {
+        1
+    }
+}
+
+#[allow(dead_code)]
+fn _unused(_: &mut StdRng) {}
